@@ -261,12 +261,14 @@ theorem upperCamel_alnum (s : Str) (h : C16.UpperCamel s) : ∀ c ∈ s, alnum c
   · exact hrest x hx
 
 /-- `to_pascal_case` leaves an UpperCamelCase identifier alone -/
-theorem toPascal_upperCamel (s : Str) (h : C16.UpperCamel s) : Rename.toPascal s = s := by
+theorem toPascal_upperCamel (U : UnicodeOps) (hU : U.AsciiCorrect) (s : Str) (h : C16.UpperCamel s) :
+    Rename.toPascal U s = s := by
   obtain ⟨c, rest, rfl, hc, hrest, hshape⟩ := h
-  have hflag : (toAsciiUpper (c :: rest) == c :: rest) = true → ∀ x ∈ rest, isAsciiDigit x = true := by
+  have hflag : Rename.isAllUpper U (c :: rest) = true → ∀ x ∈ rest, isAsciiDigit x = true := by
     intro hf
     rcases hshape with ⟨x, hx, hl⟩ | hd
-    · exact absurd (allUpper_fixed _ hf x (by simp [hx])) (lower_upperNe x hl)
+    · rw [isAllUpper_asciiLower U hU (c :: rest) x (by simp [hx]) hl] at hf
+      exact absurd hf (by decide)
     · exact hd
   unfold Rename.toPascal
   simp only [Rename.pascalGo, upper_ne_us c hc, if_false, if_true, upper_upperId c hc]
@@ -276,10 +278,11 @@ theorem toPascal_upperCamel (s : Str) (h : C16.UpperCamel s) : Rename.toPascal s
   exact ⟨alnum_ne_us x (hrest x hx), fun hf => digit_lowerId x (hflag hf x hx)⟩
 
 /-- `to_camel_case` lower-cases the initial of an UpperCamelCase identifier and nothing else -/
-theorem toCamel_upperCamel (c : Char) (rest : Str) (h : C16.UpperCamel (c :: rest)) :
-    Rename.toCamel (c :: rest) = asciiLower c :: rest := by
+theorem toCamel_upperCamel (U : UnicodeOps) (hU : U.AsciiCorrect) (c : Char) (rest : Str)
+    (h : C16.UpperCamel (c :: rest)) :
+    Rename.toCamel U (c :: rest) = asciiLower c :: rest := by
   unfold Rename.toCamel
-  rw [toPascal_upperCamel _ h]
+  rw [toPascal_upperCamel U hU _ h]
   rfl
 
 theorem upperCamel_head (s : Str) (h : C16.UpperCamel s) : ∃ c rest, s = c :: rest ∧ isAsciiUpper c = true := by
@@ -287,11 +290,11 @@ theorem upperCamel_head (s : Str) (h : C16.UpperCamel s) : ∃ c rest, s = c :: 
   exact ⟨c, rest, rfl, hc⟩
 
 /-- `to_camel_case` is injective on UpperCamelCase identifiers -/
-theorem toCamel_inj (a b : Str) (ha : C16.UpperCamel a) (hb : C16.UpperCamel b)
-    (h : Rename.toCamel a = Rename.toCamel b) : a = b := by
+theorem toCamel_inj (U : UnicodeOps) (hU : U.AsciiCorrect) (a b : Str) (ha : C16.UpperCamel a)
+    (hb : C16.UpperCamel b) (h : Rename.toCamel U a = Rename.toCamel U b) : a = b := by
   obtain ⟨c, r, rfl, hc⟩ := upperCamel_head a ha
   obtain ⟨d, t, rfl, hd⟩ := upperCamel_head b hb
-  rw [toCamel_upperCamel c r ha, toCamel_upperCamel d t hb] at h
+  rw [toCamel_upperCamel U hU c r ha, toCamel_upperCamel U hU d t hb] at h
   simp only [List.cons.injEq] at h
   have : c = d := by
     rw [← upper_lower_upper c hc, ← upper_lower_upper d hd, h.1]
